@@ -2,7 +2,7 @@
 use super::{op_line, Gen};
 use crate::wire::data_of;
 
-pub const OPS: [&str; 46] = [
+pub const OPS: [&str; 50] = [
     "lcc lat_1=57 lon_0=12",
     "lcc lat_1=-33 lat_2=-45 lon_0=10",
     "omerc latc=55 lonc=12 alpha=30 gamma_c=30 k_0=0.9996",
@@ -49,7 +49,71 @@ pub const OPS: [&str; 46] = [
     "gridshift grids=test.geoid",
     "gridshift grids=test.datum,@null | utm zone=32",
     "deformation dt=10 grids=test.deformation",
+    "deformation dt=10 grids=test.deformation,ov.deformation",
+    "deformation t_epoch=2000 grids=ov.deformation,test.deformation,@null",
+    "deformation dt=10 grids=test.deformation,eur_nkg_nkgrf17vel.deformation",
+    "deflection grids=test.geoid,@null",
 ];
+
+/// a second deformation grid overlapping `test.deformation` (54-58 N, 8-16 E) in 56-58 N, 12-16 E, with
+/// other velocities (served to model and implementation through `OPG`; `Plain` does not have it)
+pub fn overlapping_deformation_grid() -> (String, String, String) {
+    let mut text = String::from("56. 60.   12. 20.   1. 1.\n\n");
+    for row in 0..5 {
+        for col in 0..9 {
+            text += &format!("  {}.5 {}.25 {}.0 ", 20 + row, 30 + col, 3 + row + col);
+        }
+        text += "\n";
+    }
+    ("ov.deformation".to_string(), "gravsoftb".to_string(), super::grid::hex(text.as_bytes()))
+}
+
+fn cartesian(lat: f64, lon: f64, h: f64) -> [f64; 3] {
+    let (a, f) = (6378137.0, 1.0 / 298.257222101);
+    let es = f * (2.0 - f);
+    let (phi, lam) = (lat.to_radians(), lon.to_radians());
+    let n = a / (1.0 - es * phi.sin() * phi.sin()).sqrt();
+    [(n + h) * phi.cos() * lam.cos(), (n + h) * phi.cos() * lam.sin(), (n * (1.0 - es) + h) * phi.sin()]
+}
+
+/// cartesian tuples for the deformation operator: inside one grid only, inside the overlap of
+/// two, in the margin band, outside all, broken; neighbours in the set fall in different grids
+pub fn deformation_set(g: &mut Gen, n: usize) -> Vec<[f64; 4]> {
+    let spots: [(f64, f64); 12] = [(55.0, 12.0), (54.7, 9.3), (59.0, 18.0), (59.5, 19.5), (57.0, 14.0), (56.5, 13.0), (57.9, 15.9), (58.3, 12.0), (53.7, 10.0), (60.0, 20.0), (65.0, 30.0), (40.0, 0.0)];
+    let epochs = [2000.0, 2010.5, 2020.0, f64::NAN];
+    (0..n)
+        .map(|_| {
+            let (lat, lon) = *g.rng.pick(&spots);
+            let jitter = if g.rng.chance(1, 4) { 0.0 } else { g.rng.uniform(-0.2, 0.2) };
+            let c = cartesian(lat + jitter, lon - jitter, g.rng.uniform(0.0, 500.0));
+            let t = *g.rng.pick(&epochs);
+            match g.rng.below(16) {
+                0 => [f64::NAN, c[1], c[2], t],
+                1 => [c[0], c[1], f64::NAN, t],
+                _ => [c[0], c[1], c[2], t],
+            }
+        })
+        .collect()
+}
+
+/// (latitude, longitude) in degrees for the deflection operator: profiles along meridians and
+/// parallels (neighbours sharing one element bit for bit), grid border, outside, broken
+pub fn deflection_set(g: &mut Gen, n: usize) -> Vec<[f64; 4]> {
+    let mut v: Vec<[f64; 4]> = vec![];
+    for _ in 0..n {
+        let fresh = [g.rng.uniform(54.2, 57.8), g.rng.uniform(8.2, 15.8), 0.0, 0.0];
+        let c = match (g.rng.below(12), v.last().copied()) {
+            (0..=2, Some(p)) if p[1].is_finite() => [g.rng.uniform(54.2, 57.8), p[1], 0.0, 0.0], // along a meridian
+            (3..=4, Some(p)) if p[0].is_finite() => [p[0], g.rng.uniform(8.2, 15.8), 0.0, 0.0], // along a parallel
+            (5, _) => [*g.rng.pick(&[54.0f64, 58.0, 53.6, 58.4, 59.0, 0.0]), g.rng.uniform(8.2, 15.8), 0.0, 0.0],
+            (6, _) => [f64::NAN, 12.0, 0.0, 0.0],
+            (7, _) => [55.0, f64::NAN, 0.0, 0.0],
+            _ => fresh,
+        };
+        v.push(c);
+    }
+    v
+}
 
 /// geographic-ish tuples (radians) with mixed epochs, NaN members, far-out members, duplicates
 pub fn mixed_set(g: &mut Gen, n: usize) -> Vec<[f64; 4]> {
@@ -99,7 +163,13 @@ pub fn generate(g: &mut Gen, thorough: bool) {
                     }
                 }
             };
-            let set = mixed_set(g, n);
+            let set = if def.starts_with("deformation") {
+                deformation_set(g, n)
+            } else if def.starts_with("deflection") {
+                deflection_set(g, n)
+            } else {
+                mixed_set(g, n)
+            };
             let data = data_of(&set);
             let kind = if def.contains("grids=") { "plain-new" } else { "new" };
             for dir in ["F", "I"] {
@@ -114,7 +184,11 @@ pub fn generate(g: &mut Gen, thorough: bool) {
                     g.push(op_line(kind, &[], &[], def, "apply", dir, &data), "model", n >= 2);
                 }
                 if n <= 40 && def.contains("grids=") {
-                    g.push(super::opg_line(&super::shipped_grids_of(def), def, "apply", dir, &data), "model-grids", n >= 2);
+                    let mut grids = super::shipped_grids_of(def);
+                    if def.contains("ov.deformation") {
+                        grids.push(overlapping_deformation_grid());
+                    }
+                    g.push(super::opg_line(&grids, def, "apply", dir, &data), "model-grids", n >= 2);
                 }
             }
         }
